@@ -44,6 +44,13 @@ CLASS_ATTR_ELEM = {
 }
 
 
+# attributes that hold an unchecked document value whatever the receiver expression is
+ANY_RECEIVER_RAW = {"ncomponents"}  # PDFColorSpace.ncomponents: /N of an ICCBased profile stream, passed on unchecked
+
+PARAM_KIND = {
+    "pdfminer.pdfdocument.PDFDocument.read_xref_from": {"start": "NUM"},  # int_value(trailer['Prev' | 'XRefStm']) / the startxref number
+}
+
 # modules whose `Any`/`object` parameters carry the module's own data (ccitt: leaves of the code tries, bits), not document values
 INTERNAL_ANY_MODULES = {"pdfminer.ccitt", "pdfminer.arcfour", "pdfminer.jbig2"}
 
@@ -78,6 +85,9 @@ class DocTaint:
                     continue
                 if k and x.arg not in ("self", "cls"):
                     self.vars[x.arg] = k
+        # parameters that carry document integers although annotated `int` (filled from int_value(...) of a dictionary entry)
+        for pn, kd in PARAM_KIND.get(f.qualname, {}).items():
+            self.vars[pn] = kd
         if f.cls is not None and f.cls.name == "PDFPageInterpreter" and f.name.startswith("do_") and hasattr(node, "args"):
             for x in node.args.args[1:]:  # type: ignore[attr-defined]
                 self.vars[x.arg] = "RAW"
@@ -275,6 +285,8 @@ class DocTaint:
                 for cn in self._mro_names:
                     if (cn, e.attr) in CLASS_ATTR_KIND:
                         return CLASS_ATTR_KIND[(cn, e.attr)]
+            if e.attr in ANY_RECEIVER_RAW:
+                return "RAW"
             if isinstance(e.value, ast.Name) and e.value.id in ("self", "page", "image", "stream", "xobj", "obj", "document", "doc"):
                 if e.attr in DICT_ATTRS:
                     return "DICT"
